@@ -426,6 +426,15 @@ impl VaultWorld {
             new_fee_collector_addr: None,
         }
     }
+    /// owner (through the factory) points the vault at another fee collector; not an `Op` of the model (the collector identity
+    /// is not part of the modelled state): used by the monitor-only stream of C05/C07
+    pub fn set_collector(&mut self, new_collector: &str) -> i64 {
+        let params = vmsg::UpdateConfigParams { flash_loan_enabled: None, deposit_enabled: None, withdraw_enabled: None, new_owner: None, new_vault_fees: None,
+            new_fee_collector_addr: Some(new_collector.to_string()) };
+        let (who, factory, vault) = (self.addr(I_FOWNER), self.factory.clone(), self.vault.to_string());
+        let r = std::panic::catch_unwind(std::panic::AssertUnwindSafe(|| self.app.execute_contract(who, factory, &fmsg::ExecuteMsg::UpdateVaultConfig { vault_addr: vault, params }, &[])));
+        match r { Ok(Ok(_)) => 0, Ok(Err(e)) => classify_code(&e), Err(_) => 1 }
+    }
     /// vault-router FlashLoan with native coins attached to the message (monitor-only stream of C06: not an `Op` of the model)
     pub fn router_loan_with_funds(&mut self, u: usize, amount: u128, pre: u128, script: &[Act], attached: u128) -> i64 {
         let denom = match &self.asset { AssetInfo::NativeToken { denom } => denom.clone(), _ => return 1 };
